@@ -926,6 +926,244 @@ theorem useFreeID_table {P n a k q id n' ms} (h : NrtOk P n) (hq : n.learnQ = (a
       · exact h0 hin
       · exact hx hin
 
+/-! ### the realtime half always acts on a past snapshot of the non-realtime half -/
+
+/-- what `binding` looks at -/
+def viewOf (o : Option Storage) : List MapEnt × List Cb :=
+  match o with
+  | none => ([], [])
+  | some st => (st.mapping, st.callbacks)
+
+theorem binding_of_viewOf {r : RT} {n : NRT} (h : viewOf r.storage = viewOf n.storage) :
+    r.binding = n.binding := by
+  funext id
+  cases h1 : r.storage <;> cases h2 : n.storage <;> simp [h1, h2, viewOf] at h
+  · simp [RT.binding, NRT.binding, h1, h2]
+  · obtain ⟨e1, e2⟩ := h; simp [RT.binding, NRT.binding, h1, h2, Storage.binding, e1]
+  · obtain ⟨e1, e2⟩ := h; simp [RT.binding, NRT.binding, h1, h2, Storage.binding, e1]
+  · obtain ⟨e1, e2⟩ := h; simp [RT.binding, NRT.binding, h1, h2, Storage.binding, e1, e2]
+
+theorem unMap_sent {n n' : NRT} {a k ms} (h : n.unMap a k = some (n', ms)) :
+    (ms = [] ∧ n'.storage = n.storage) ∨ ∃ st, ms = [.bind st none] ∧ n'.storage = some st := by
+  cases hl : imLookup n.invMap a with
+  | none => simp [NRT.unMap, hl] at h; obtain ⟨rfl, rfl⟩ := h; simp
+  | some im =>
+    cases hk : (if k then im.coarse else im.fine) with
+    | none =>
+      simp only [NRT.unMap, hl, hk] at h
+      simp at h; obtain ⟨rfl, rfl⟩ := h; simp
+    | some kid =>
+      simp only [NRT.unMap, hl, hk] at h
+      cases hs : n.storage with
+      | none => simp [hs] at h
+      | some st =>
+        cases hkm : killMap kid st.mapping with
+        | none => simp [hs, hkm] at h
+        | some mp =>
+          simp [hs, hkm] at h; obtain ⟨rfl, rfl⟩ := h
+          right; exact ⟨_, rfl, rfl⟩
+
+theorem map_sent {n n' : NRT} {a k ms} (h : n.map a k = some (n', ms)) :
+    (flightOf ms = [] ∧ n'.storage = n.storage) ∨
+    ∃ st, flightOf ms = [(st, none)] ∧ n'.storage = some st := by
+  unfold NRT.map at h
+  split at h
+  · simp at h; obtain ⟨rfl, rfl⟩ := h; simp [flightOf]
+  · cases hu : n.unMap a k with
+    | none => simp [hu] at h
+    | some r =>
+      obtain ⟨n1, ms1⟩ := r
+      simp [hu] at h; obtain ⟨rfl, rfl⟩ := h
+      rcases unMap_sent hu with ⟨rfl, h2⟩ | ⟨st, rfl, h2⟩
+      · left; simp [flightOf, h2]
+      · right; exact ⟨st, by simp [flightOf], h2⟩
+
+theorem useFreeID_sent {P : List PortSpec} {n n' : NRT} {id ms} (h : NRT.useFreeID P n id = some (n', ms)) :
+    (ms = [] ∧ n'.storage = n.storage) ∨ ∃ st, ms = [.bind st (some id)] ∧ n'.storage = some st := by
+  cases hq : n.learnQ with
+  | nil => simp [NRT.useFreeID, hq] at h; obtain ⟨rfl, rfl⟩ := h; simp
+  | cons x q =>
+    obtain ⟨a, k⟩ := x
+    simp only [NRT.useFreeID, hq] at h
+    cases hp : P[a]? with
+    | none => simp [hp] at h
+    | some p =>
+      simp only [hp] at h
+      split at h
+      · simp at h
+      · rename_i n1 ns _
+        unfold NRT.finishLearn at h
+        cases hl : imLookup n1.invMap a with
+        | none => simp [hl] at h
+        | some im =>
+          simp only [hl] at h
+          split at h
+          · simp at h
+          · simp at h; obtain ⟨rfl, rfl⟩ := h; right; exact ⟨_, rfl, rfl⟩
+
+/-- the non-realtime states of a history: the current one and all earlier ones -/
+def pastNrts (h : List (Sys × Op)) (s : Sys) : List NRT := s.nrt :: h.map (·.1.nrt)
+
+/-- Every snapshot in flight, and the one the realtime half acts on, is (mapping and
+    callbacks) the current snapshot of the non-realtime half at some moment of the history:
+    whatever the delivery order, hazards or not. -/
+theorem views_are_past {P h s} (t : Trace P h s) :
+    (∃ n ∈ pastNrts h s, viewOf s.rt.storage = viewOf n.storage) ∧
+    (∀ st ans, RtMsg.bind st ans ∈ s.toRT → ∃ n ∈ pastNrts h s, viewOf (some st) = viewOf n.storage) := by
+  induction t with
+  | init => exact ⟨⟨NRT.init, by simp [pastNrts, Sys.init], rfl⟩, by simp [Sys.init]⟩
+  | step t hwf hs ih =>
+    rename_i h0 s0 s1 op out
+    obtain ⟨⟨nr, hnr, hvr⟩, hfl⟩ := ih
+    -- older states stay in the past
+    have older : ∀ n, n ∈ pastNrts h0 s0 → n ∈ pastNrts ((s0, op) :: h0) s1 := by
+      intro n hn; simp only [pastNrts, List.map_cons, List.mem_cons] at hn ⊢
+      rcases hn with rfl | hn
+      · exact Or.inr (Or.inl rfl)
+      · exact Or.inr (Or.inr hn)
+    have cur : s1.nrt ∈ pastNrts ((s0, op) :: h0) s1 := by simp [pastNrts]
+    -- steps of the nRT half: RT untouched, channel gets at most one bind = new snapshot
+    have nrtStep : ∀ (n' : NRT) (ms : List RtMsg), s1.rt = s0.rt → s1.nrt = n' → s1.toRT = s0.toRT ++ ms →
+        ((flightOf ms = [] ∧ n'.storage = s0.nrt.storage) ∨ ∃ st a, flightOf ms = [(st, a)] ∧ n'.storage = some st) →
+        (∃ n ∈ pastNrts ((s0, op) :: h0) s1, viewOf s1.rt.storage = viewOf n.storage) ∧
+        (∀ st ans, RtMsg.bind st ans ∈ s1.toRT → ∃ n ∈ pastNrts ((s0, op) :: h0) s1, viewOf (some st) = viewOf n.storage) := by
+      intro n' ms hrt hn hto hcase
+      refine ⟨⟨nr, older nr hnr, by rw [hrt]; exact hvr⟩, ?_⟩
+      intro st ans hin
+      rw [hto, List.mem_append] at hin
+      rcases hin with hin | hin
+      · obtain ⟨n, hn', hv⟩ := hfl st ans hin; exact ⟨n, older n hn', hv⟩
+      · have hmem : (st, ans) ∈ flightOf ms := by
+          clear hcase hto
+          induction ms with
+          | nil => simp at hin
+          | cons m r ihm =>
+            cases m with
+            | addWatch => simp at hin; simp [flightOf, ihm hin]
+            | bind st' a' =>
+              simp at hin
+              rcases hin with ⟨rfl, rfl⟩ | hin
+              · simp [flightOf]
+              · simp [flightOf, ihm hin]
+        rcases hcase with ⟨he, _⟩ | ⟨st', a', he, hst'⟩
+        · rw [he] at hmem; simp at hmem
+        · rw [he] at hmem; simp at hmem; obtain ⟨rfl, rfl⟩ := hmem
+          exact ⟨s1.nrt, cur, by rw [hn, hst']⟩
+    cases op with
+    | map a k =>
+      simp only [step] at hs
+      cases hm : s0.nrt.map a k with
+      | none => simp [hm] at hs
+      | some r =>
+        obtain ⟨n', ms⟩ := r
+        simp [hm] at hs; obtain ⟨rfl, _⟩ := hs
+        apply nrtStep n' ms rfl rfl rfl
+        rcases map_sent hm with h1 | ⟨st, h1, h2⟩
+        · exact Or.inl h1
+        · exact Or.inr ⟨st, none, h1, h2⟩
+    | unmap a k =>
+      simp only [step] at hs
+      cases hm : s0.nrt.unMap a k with
+      | none => simp [hm] at hs
+      | some r =>
+        obtain ⟨n', ms⟩ := r
+        simp [hm] at hs; obtain ⟨rfl, _⟩ := hs
+        apply nrtStep n' ms rfl rfl rfl
+        rcases unMap_sent hm with ⟨rfl, h2⟩ | ⟨st, rfl, h2⟩
+        · exact Or.inl ⟨rfl, h2⟩
+        · exact Or.inr ⟨st, none, rfl, h2⟩
+    | clear =>
+      simp [step, NRT.clear] at hs; obtain ⟨rfl, _⟩ := hs
+      exact nrtStep _ [.bind Storage.empty none] rfl rfl rfl (Or.inr ⟨Storage.empty, none, rfl, rfl⟩)
+    | deliverNRT =>
+      simp only [step] at hs
+      cases hq : s0.toNRT with
+      | nil =>
+        simp [hq] at hs; obtain ⟨rfl, _⟩ := hs
+        exact nrtStep s0.nrt [] rfl rfl (by simp) (Or.inl ⟨rfl, rfl⟩)
+      | cons id rest =>
+        simp only [hq] at hs
+        cases hu : NRT.useFreeID P s0.nrt id with
+        | none => simp [hu] at hs
+        | some r =>
+          obtain ⟨n', ms⟩ := r
+          simp [hu] at hs; obtain ⟨rfl, _⟩ := hs
+          apply nrtStep n' ms rfl rfl rfl
+          rcases useFreeID_sent hu with ⟨rfl, h2⟩ | ⟨st, rfl, h2⟩
+          · exact Or.inl ⟨rfl, h2⟩
+          · exact Or.inr ⟨st, some id, rfl, h2⟩
+    | cc id val =>
+      simp only [step] at hs
+      cases hm : s0.rt.handleCC id val with
+      | none => simp [hm] at hs
+      | some r =>
+        obtain ⟨r', m, req⟩ := r
+        simp [hm] at hs; obtain ⟨rfl, _⟩ := hs
+        have hview : viewOf r'.storage = viewOf s0.rt.storage := by
+          have i0 := inv0_of_reach (reach_of_trace t)
+          unfold RT.handleCC at hm
+          cases hst : s0.rt.storage with
+          | none =>
+            simp [hst] at hm
+            split at hm <;> (simp at hm; obtain ⟨rfl, _⟩ := hm; rfl)
+          | some st =>
+            simp only [hst] at hm
+            cases hh : st.handleCC id val with
+            | none => simp [hh] at hm
+            | some y =>
+              obtain ⟨st2, m2⟩ := y
+              obtain ⟨_, a2, a3⟩ := handleCC_small (st := st) hwf (i0.rt st hst).2 hh
+              simp only [hh, Option.map_some] at hm
+              cases m2 with
+              | some mm => simp at hm; obtain ⟨rfl, _⟩ := hm; simp [viewOf, a2, a3]
+              | none =>
+                simp only at hm
+                split at hm <;> (simp at hm; obtain ⟨rfl, _⟩ := hm; simp [viewOf, a2, a3])
+        refine ⟨⟨nr, older nr hnr, by simp only; rw [hview]; exact hvr⟩, ?_⟩
+        intro st ans hin
+        obtain ⟨n, hn', hv⟩ := hfl st ans hin; exact ⟨n, older n hn', hv⟩
+    | deliverRT =>
+      simp only [step] at hs
+      cases hq : s0.toRT with
+      | nil =>
+        simp [hq] at hs; obtain ⟨rfl, _⟩ := hs
+        exact ⟨⟨nr, older nr hnr, hvr⟩, fun st ans hin => by
+          obtain ⟨n, hn', hv⟩ := hfl st ans hin; exact ⟨n, older n hn', hv⟩⟩
+      | cons m rest =>
+        simp only [hq] at hs
+        cases hr : s0.rt.recv m with
+        | none => simp [hr] at hs
+        | some r' =>
+          simp [hr] at hs; obtain ⟨rfl, _⟩ := hs
+          have hrest : ∀ st ans, RtMsg.bind st ans ∈ rest →
+              ∃ n ∈ pastNrts ((s0, Op.deliverRT) :: h0) { s0 with rt := r', toRT := rest },
+                viewOf (some st) = viewOf n.storage := by
+            intro st ans hin
+            obtain ⟨n, hn', hv⟩ := hfl st ans (by rw [hq]; exact List.mem_cons_of_mem _ hin)
+            exact ⟨n, older n hn', hv⟩
+          refine ⟨?_, hrest⟩
+          cases m with
+          | addWatch =>
+            simp [RT.recv] at hr; subst hr
+            exact ⟨nr, older nr hnr, hvr⟩
+          | bind ns ans =>
+            obtain ⟨n, hn', hv⟩ := hfl ns ans (by rw [hq]; exact List.mem_cons_self)
+            have hview : viewOf r'.storage = viewOf (some ns) := by
+              simp only [RT.recv] at hr
+              cases hst : s0.rt.storage with
+              | none => simp [hst] at hr; subst hr; rfl
+              | some old =>
+                simp only [hst] at hr
+                cases hc : ns.cloneValues old with
+                | none => simp [hc] at hr
+                | some ns' =>
+                  simp [hc] at hr; subst hr
+                  unfold Storage.cloneValues at hc
+                  split at hc
+                  · simp at hc
+                  · simp at hc; subst hc; rfl
+            exact ⟨n, older n hn', by simp only; rw [hview]; exact hv⟩
+
 /-! ### the history of a concrete run, as data -/
 
 /-- the (state before, op) pairs of a run, most recent first -/
@@ -977,5 +1215,26 @@ theorem step_one_msg {P s op} (h : (step P s op).map (fun r => r.2.length) = som
     simp [hs] at h
     match out, h with
     | [m], _ => exact ⟨s', m, rfl⟩
+
+/-! ### plumbing for the concrete witnesses of Props/C20.lean -/
+
+instance (s : Sys) : Decidable s.quiescent := by unfold Sys.quiescent; infer_instance
+
+/-- port table of the witnesses: `p0:i` 0..127, `p1:f` -1..1, `p2:f` 0..1 -/
+def exPorts : List PortSpec := [⟨true, 0, 1016⟩, ⟨false, -8, 8⟩, ⟨false, 0, 8⟩]
+
+theorem wf_all (ops : List Op) (h : ops.all (fun op => decide (op.wf exPorts)) = true) :
+    ∀ op ∈ ops, op.wf exPorts := by
+  intro op hop; have := List.all_eq_true.mp h op hop; simpa using this
+
+/-- a concrete run is a history, and that history is data (`histOf`) -/
+theorem trace_of_concrete_run {ops : List Op} (hwf : ops.all (fun op => decide (op.wf exPorts)) = true)
+    (hsome : (run exPorts Sys.init ops).isSome = true) :
+    Trace exPorts (histOf exPorts Sys.init ops) (((run exPorts Sys.init ops).map (·.1)).getD Sys.init) := by
+  cases hr : run exPorts Sys.init ops with
+  | none => simp [hr] at hsome
+  | some r =>
+    have t := trace_histOf ops [] Sys.init r.1 r.2 Trace.init (wf_all ops hwf) hr
+    simpa using t
 
 end Rtosc.Midi
